@@ -112,6 +112,21 @@ def cancelled_mid_open(engine, rng, n):
     return out
 
 
+def slow_open(engine, n):
+    """the new processor takes longer to open than any internal patience (12 s): whatever the caller is told, it has to
+    be true - 'applied' only if that configuration is in force afterwards, an error only if it never handles a record"""
+    out = []
+    for i in range(n):
+        p = P("p1", ["pipeline", "s1", "d1"][i % 3], 1, {}, open_delay_gen="2", open_delay_ms=12000)
+        steps = [{"do": "Emit", "src": "s1"}, {"do": "Reconfigure", "proc": "p1", "tag": "2", "ms": 0},
+                 {"do": "AwaitCalls", "ms": 20000}, {"do": "Sleep", "ms": 2500 if i % 2 == 0 else 200}, {"do": "Emit", "src": "s1"},
+                 {"do": "Settle"}, {"do": "Emit", "src": "s1"}, {"do": "Settle"}]
+        sc = dpgen.scenario("%s-slowopen-%03d" % (engine, i), engine, [S("s1", 4, [1] * 4)], [D("d1", gated=False)], [p], 0, 0, steps)
+        sc["features"] = sorted(set(dpgen.features_of(sc)) | {"reconf", "reconf-sequential", "slow-open"})
+        out.append(sc)
+    return out
+
+
 def nontrivial(sc, tr):
     calls = [(e["geni"]) for e in tr if e["ev"] == "ReconfCall"]
     if not calls:
@@ -147,6 +162,7 @@ def run(tier, seed):
     chk.run(random_reconf("v1", rng, n), name="reconf-random")
     chk.run(at_startup(rng, 6 if quick else 60), name="reconf-startup")
     chk.run(cancelled_mid_open("v1", rng, 6 if quick else 40), name="reconf-cancel")
+    chk.run(slow_open("v1", 3 if quick else 12), name="reconf-slow-open")
     chk.validate()
     return chk.finish(nontrivial,
                       "a reconfigure request (one, two in a row, one whose open fails, one whose caller gives up after "
